@@ -105,7 +105,7 @@ opus_int vwrap_silk_Encode(void *encState, silk_EncControlStruct *encControl, co
    if (e.nfr > 3) e.nfr = 3;
    for (i = 0; i < e.nfr; i++) {
       e.low0[i] = !ps->state_Fxx[0].sCmn.VAD_flags[i];
-      e.mid[i] = (e.nch == 2) ? (ps->sStereo.mid_only_flags[i] != 0) : 0;
+      e.mid[i] = ps->sStereo.mid_only_flags[i] != 0;   /* read as enc_API.c:524 reads it: stale when coding mono */
       e.low1[i] = (e.nch == 2 && !e.mid[i]) ? !ps->state_Fxx[1].sCmn.VAD_flags[i] : 0;
    }
    e.nbytes_zero = (*nBytesOut == 0);
